@@ -634,7 +634,42 @@ def rw_iter(fi, args):
     return edits
 
 
+def rw_cuttail(fi, args):
+    """R-CUTTAIL J: drop everything after the top-level statement of the body that contains `return J`
+    and put `vc_unreachable()` (requires false) there: the remainder is NOT verified and must be
+    shown unreachable from the contracts."""
+    toks = fi.toks
+    it = fi.item
+    r = fi.returns[int(args[0])]
+    i = it.body_open + 1
+    stmt_end = None
+    while i < it.body_close:
+        t = toks[i]
+        j = i
+        # advance to end of this top-level statement
+        while j < it.body_close:
+            tj = toks[j]
+            if tj.kind == 'punct' and tj.text in ('(', '['):
+                j = match_close(toks, j)
+            elif is_p(tj, '{'):
+                j = match_close(toks, j)
+                nxt = toks[j + 1]
+                if not (is_id(nxt, 'else') or is_p(nxt, '.') or is_p(nxt, '?') or is_p(nxt, ';')):
+                    break
+            elif is_p(tj, ';'):
+                break
+            j += 1
+        if i <= r <= j:
+            stmt_end = j
+            break
+        i = j + 1
+    if stmt_end is None:
+        raise LostAnchor(f'fn {it.name}: R-CUTTAIL could not find the statement of return {args[0]}')
+    return [(toks[stmt_end].end, toks[it.body_close].start, '\n        vc_unreachable()\n    ', 'R-CUTTAIL')]
+
+
 REWRITES = {
+    'R-CUTTAIL': rw_cuttail,
     'R-ITER': rw_iter,
     'R-LETCHAIN': rw_letchain,
     'R-HOIST': rw_hoist,
@@ -675,6 +710,7 @@ class Generated:
         self.rewrites = []    # (rule, rel, line)
         self.dropped = {}
         self.clauses = []     # (fn, anchor, text)
+        self.projected = []   # (rel, struct, dropped fields)
 
 
 def emit_fn(gen, sf, item, spec, canary=False, qual='', in_trait=False):
@@ -708,6 +744,10 @@ def emit_fn(gen, sf, item, spec, canary=False, qual='', in_trait=False):
     if canary:
         nm = toks[item.kw + 1]
         edits.append((nm.start, nm.end, '__canary_' + item.name, 'R-CANARY'))
+    # edits swallowed by a larger replacement (R-CUTTAIL) are dropped
+    big = [e for e in edits if isinstance(e[3], str) and e[3] in ('R-CUTTAIL',)]
+    for b in big:
+        edits = [e for e in edits if e is b or not (b[0] <= e[0] and e[1] <= b[1])]
     start_line = gen.out.lineno()
     gen.out.nl()
     start_line = gen.out.lineno()
@@ -730,8 +770,59 @@ def emit_fn(gen, sf, item, spec, canary=False, qual='', in_trait=False):
             gen.clauses.append((qual + item.name, anchor, text.strip()))
 
 
-def emit_item(gen, sf, item):
+def project_edits(sf, item, keep):
+    """R-PROJECT: keep only the named fields of a struct (the others are dropped and reported)."""
+    toks = sf.toks
+    if item.kind != 'struct' or item.body_open is None:
+        raise LostAnchor(f'{sf.rel}: `only` needs a struct with named fields ({item.name})')
+    fields = []   # (name, first_tok, last_tok_incl_comma)
+    i = item.body_open + 1
+    while i < item.body_close:
+        start = i
+        # attributes / vis
+        while is_p(toks[i], '#'):
+            i = match_close(toks, i + 1) + 1
+        if is_id(toks[i], 'pub'):
+            i += 1
+            if is_p(toks[i], '('):
+                i = match_close(toks, i) + 1
+        name = toks[i].text
+        adepth = 0
+        j = i
+        while j < item.body_close:
+            t = toks[j]
+            if t.kind == 'punct' and t.text in ('(', '[', '{'):
+                j = match_close(toks, j)
+            elif is_p(t, '<'):
+                adepth += 1
+            elif is_p(t, '>') and not is_p(toks[j - 1], '-'):
+                adepth -= 1
+            elif is_p(t, ',') and adepth == 0:
+                break
+            j += 1
+        last = j if j < item.body_close else item.body_close - 1
+        fields.append((name, start, last))
+        i = last + 1
+    names = [f[0] for f in fields]
+    for k in keep:
+        if k not in names:
+            raise LostAnchor(f'{sf.rel}: struct {item.name} has no field `{k}`')
+    edits = []
+    dropped = []
+    for name, a, b in fields:
+        if name not in keep:
+            edits.append((toks[a - 1].end, toks[b].end, '', 'R-PROJECT'))
+            dropped.append(name)
+    return edits, dropped
+
+
+def emit_item(gen, sf, item, only=None):
     edits = strip_edits(sf, item.first, item.last) + pub_edits(sf, item)
+    if only is not None:
+        pe, dropped = project_edits(sf, item, only)
+        # remove strip/pub edits that fall inside dropped ranges
+        edits = [e for e in edits if not any(p[0] <= e[0] and e[1] <= p[1] for p in pe)] + pe
+        gen.projected.append((sf.rel, item.name, dropped))
     gen.out.nl()
     apply_edits(sf.src, sf.toks[item.first].start, sf.toks[item.last].end, edits, gen.out, sf.rel)
     gen.out.nl()
@@ -823,9 +914,19 @@ def generate(unit_path, canaries=True):
         if not w or w[0] == '#':
             i += 1
             continue
-        if w[0] == 'item':
+        if w[0] == 'idtype':
+            tmpl = open(os.path.join(VERIF, 'prelude', 'idtype.tmpl')).read()
+            tp = os.path.join(VERIF, 'prelude', 'idtype.tmpl')
+            for nm in w[1:]:
+                gen.out.nl()
+                gen.out.add(tmpl.replace('__NAME__', nm), lambda k, tp=tp: ('unit', tp, k + 1))
+            i += 1
+        elif w[0] == 'item':
             sf = SrcFile.get(w[1])
-            emit_item(gen, sf, sf.find_item(w[2], w[3]))
+            only = None
+            if len(w) > 5 and w[4] == 'only':
+                only = [x for x in ' '.join(w[5:]).replace(',', ' ').split()]
+            emit_item(gen, sf, sf.find_item(w[2], w[3]), only=only)
             i += 1
         elif w[0] == 'impl':
             sf = SrcFile.get(w[1])
